@@ -9,7 +9,7 @@ import tcpcl_util as tu
 
 MODULE = 'DtnVerif.Props.C17'
 
-STATES = ['pre_contact', 'in_contact', 'established', 'mid_rx', 'mid_tx', 'await_ack', 'terminating']
+STATES = ['pre_contact', 'in_contact', 'established', 'mid_rx', 'mid_tx', 'await_ack', 'two_tx', 'terminating']
 
 
 class Adversary(object):
@@ -26,6 +26,7 @@ class Adversary(object):
         self.acked = {}
         self.injected = []
         self.cum = {}
+        self.peer_keepalive = 0
 
     def feed(self, data, cut=None):
         if self.x.closed():
@@ -69,7 +70,7 @@ class Adversary(object):
             if k == 'contact' and not self.passive:
                 self.send({'k': 'contact', 'flags': 0})
             elif k == 'sess_init' and not self.passive:
-                self.send({'k': 'sess_init', 'keepalive': 0, 'seg_mru': 2 ** 64 - 1, 'xfer_mru': 2 ** 64 - 1, 'node': b'dtn://peer/'.hex(), 'ext': ''})
+                self.send({'k': 'sess_init', 'keepalive': self.peer_keepalive, 'seg_mru': 2 ** 64 - 1, 'xfer_mru': 2 ** 64 - 1, 'node': b'dtn://peer/'.hex(), 'ext': ''})
             elif k == 'xfer_segment' and ack:
                 if m['flags'] & 2:
                     self.cum[m['tid']] = 0
@@ -93,7 +94,7 @@ class Adversary(object):
         if state == 'in_contact':
             return True
         if self.passive:
-            self.send({'k': 'sess_init', 'keepalive': 0, 'seg_mru': 2 ** 64 - 1, 'xfer_mru': 2 ** 64 - 1, 'node': b'dtn://peer/'.hex(), 'ext': ''})
+            self.send({'k': 'sess_init', 'keepalive': self.peer_keepalive, 'seg_mru': 2 ** 64 - 1, 'xfer_mru': 2 ** 64 - 1, 'node': b'dtn://peer/'.hex(), 'ext': ''})
         self.coop()
         self.coop()
         if x.h._state != 'established':
@@ -115,6 +116,15 @@ class Adversary(object):
                 self.drain()
                 self.seen = len(self.frames())   # segments seen but deliberately not yet acknowledged
                 self.unacked = [m for m in self.frames() if m['k'] == 'xfer_segment']
+            return True
+        if state == 'two_tx':
+            # transfer 1 completely sent and unacknowledged, transfer 2 in the middle of its segments
+            sim.send(x, bytes(range(30)))
+            self.drain()
+            sim.send(x, bytes(range(100, 125)))
+            sim.pq(x)
+            self.own = [bytes(range(30)), bytes(range(100, 125))]
+            self.seen = len(self.frames())
             return True
         if state == 'terminating':
             sim.terminate(x, 0)
@@ -178,7 +188,7 @@ def run_case(chk, rng, passive, state, seq, cuts):
                 adv.blame.append((o['escaped'], 'precontact' if state == 'pre_contact' else name))
     # afterwards behave: acknowledge everything X sent, let it finish
     own = getattr(adv, 'own', [])
-    if not x.closed() and state in ('mid_tx', 'await_ack'):
+    if not x.closed() and state in ('mid_tx', 'await_ack', 'two_tx'):
         for m in getattr(adv, 'unacked', []):
             pass
         adv.seen = 0
@@ -198,6 +208,9 @@ def run_case(chk, rng, passive, state, seq, cuts):
     else:
         for _ in range(3):
             adv.coop()
+    if not x.closed():
+        for q in ('idle', 'txq', 'rxq'):
+            sim.query(x, q)
     return adv, mark, wire_before, own
 
 
@@ -216,12 +229,58 @@ def judge(chk, adv, mark, wire_before, own, label, seqnames, state):
         tid = int(tm.arg(a[0]))
         if tid in (4242, 4243):
             bad.append(('C17:delivered-mismatched-transfer', 'endpoint delivered data for transfer %d which never started' % tid))
+    # ... stated independently: what X reports as received is what an ideal receiver (written from the
+    # property text: a START opens a transfer, a later segment extends it only if its id matches, END
+    # completes it, everything else is ignored) reconstructs from the octets X was given
+    try:
+        fed = b''.join(bytes.fromhex(e['data']) for e in x.events if e.get('e') == 'rx')
+        frames_in = [m for (m, _end) in tu.rfc_frames(fed)[0]]
+    except ValueError:
+        frames_in = None
+    if frames_in is not None:
+        in_sess, cur, done = False, None, []
+        for m in frames_in:
+            if m['k'] == 'sess_init':
+                in_sess = True
+            elif m['k'] == 'xfer_segment' and in_sess:
+                if m['flags'] & 2:
+                    cur = [m['tid'], b'']
+                elif cur is None or cur[0] != m['tid']:
+                    continue
+                cur[1] += bytes.fromhex(m['data'])
+                if m['flags'] & 1:
+                    done.append((cur[0], cur[1]))
+                    cur = None
+        got = [(int(tm.arg(a[0])), int(tm.arg(a[1]))) for (_i, _n, a) in tm.signals(sim, x.name, 'recv_bundle_finished')]
+        want = [(t, len(d)) for (t, d) in done]
+        if got != want[:len(got)] or (not x.closed() and got != want):
+            bad.append(('C17:delivered-differs-from-ideal-receiver',
+                        'endpoint reports received transfers %s, the octets it was given carry %s (sequence %s, state %s)' % (got[:4], want[:4], seqnames, state)))
+        else:
+            last = {}
+            for (t, d) in done[:len(got)]:
+                last[t] = d
+            for t, d in last.items():
+                try:
+                    have = bytes(x.h.recv_bundle_pop_data(str(t)))
+                except Exception:
+                    continue
+                if have != d:
+                    bad.append(('C17:delivered-data-mismatched', 'transfer %d delivered with %d octets differing from what was sent for it' % (t, len(have))))
     # own transfers unaffected (unless the peer legitimately refused them or terminated the session)
     refused = any(n in ('refuse_own', 'ack_own_end_early', 'sess_term', 'sess_term_reply', 'sess_init_again') for n in seqnames)
     if own and not refused and not x.closed():
         succ = [int(tm.arg(a[0])) for (_i, _n, a) in tm.signals(sim, x.name, 'send_bundle_finished') if tm.arg(a[2]) == 'success']
-        if succ != [1]:
+        if sorted(succ) != list(range(1, len(own) + 1)):
             bad.append(('C17:own-transfer-affected-by-%s' % seqnames[0], 'own transfer did not complete after the peer sent %s in state %s (success for %s)' % (seqnames, state, succ)))
+    if own and len(own) > 1 and 'refuse_own' in seqnames and not x.closed() and not any(
+            n in ('sess_term', 'sess_term_reply', 'sess_init_again') for n in seqnames):
+        succ = [int(tm.arg(a[0])) for (_i, _n, a) in tm.signals(sim, x.name, 'send_bundle_finished') if tm.arg(a[2]) == 'success']
+        if 2 not in succ:
+            bad.append(('C17:other-transfer-affected-by-refuse', 'the peer refused transfer 1; transfer 2 (in progress) did not complete (success for %s)' % succ))
+    # the D-Bus view stays consistent under adversarial input too
+    for ep_bad in tm.mon_c18_queues(sim):
+        bad.append((ep_bad[0].replace('C18:', 'C17:dbus-'), ep_bad[1]))
     return bad
 
 
